@@ -505,6 +505,50 @@ def do_edit(m, e, state, **kw):
         raise ValueError(f'unknown edit {e}')
 
 
+def read_aggregates(m):
+    """(charge, radical flag, formula, mass) as the object answers them now; a raise is part of the answer"""
+    out = []
+    for f in (lambda: int(m), lambda: bool(m.is_radical), lambda: dict(m.brutto), lambda: float(m)):
+        try:
+            out.append(f())
+        except TypeError:
+            out.append('E:TypeError')
+    return out
+
+
+def recount_aggregates(m):
+    """the sums over the atoms the molecule has now (independent of any cached value)"""
+    atoms = list(m._atoms.values())
+    q = sum(a._charge for a in atoms)
+    rad = any(a._is_radical for a in atoms)
+    if any(a._implicit_hydrogens is None for a in atoms):
+        return [q, rad, 'E:TypeError', 'E:TypeError']
+    c = Counter(a.atomic_symbol for a in atoms)
+    c['H'] += sum(a._implicit_hydrogens for a in atoms)
+    hm = _exact_atomic_mass(_cls(1)())
+    return [q, rad, dict(c), sum(_exact_atomic_mass(a) + a._implicit_hydrogens * hm for a in atoms)]
+
+
+def aggregates_agree(got, exp):
+    """exp[3] may be an exact Fraction (recount) or the model's 10^-12 integer string"""
+    bad = []
+    if got[0] != exp[0]:
+        bad.append(('charge', got[0], exp[0]))
+    if got[1] != exp[1]:
+        bad.append(('is_radical', got[1], exp[1]))
+    if not brutto_agrees(got[2], exp[2]):
+        bad.append(('brutto', got[2], exp[2]))
+    if isinstance(exp[3], str) and not exp[3].startswith('E:'):
+        ok = mass_agrees(got[3], exp[3])
+    elif isinstance(exp[3], str) or isinstance(got[3], str):
+        ok = got[3] == exp[3]
+    else:
+        ok = abs(Fraction(got[3]) - exp[3]) <= Fraction(1, 10 ** 9) * max(1, exp[3])
+    if not ok:
+        bad.append(('mass', got[3], str(exp[3])[:30]))
+    return bad
+
+
 def apply_history(src, ops):
     """run a list of operations of the public API on a copy of `src`; returns the resulting molecules"""
     c = src.copy()
@@ -517,7 +561,18 @@ def apply_history(src, ops):
         nxt = []
         for m in cur:
             have = set(m._atoms)
-            if k == 'call':
+            read_aggregates(m)   # a user may have looked at formula / charge / radical flag / mass before operating
+            if k in ('ior', 'union_inplace'):
+                other = molgen.parse(op[1])
+                if op[2]:   # disjoint numbering: the other molecule is renumbered beyond this one (no remap inside union)
+                    top = max(max(m._atoms), max(other._atoms))
+                    other.remap({n: n + top + op[2] for n in list(other._atoms)})
+                if k == 'ior':
+                    m |= other
+                else:
+                    m.union(other, remap=True, copy=False)
+                nxt.append(m)
+            elif k == 'call':
                 getattr(m, op[1])(**op[2])
                 nxt.append(m)
             elif k == 'substructure':
@@ -751,13 +806,15 @@ def history_cases(ctx):
             cases.append((name, m, ops))
         for _ in range(reps):   # cutting: substructure / & / - / augmented / split / union
             sel = random_subset(rng, m)
-            kind = rng.choice(['substructure', 'and', 'sub', 'augmented', 'augmenteds', 'split', 'union', 'copy'])
+            kind = rng.choice(['substructure', 'and', 'sub', 'augmented', 'augmenteds', 'split', 'union', 'copy', 'ior', 'union_inplace'])
             if kind in ('substructure', 'and', 'sub'):
                 ops = [[kind, sel]]
             elif kind in ('augmented', 'augmenteds'):
                 ops = [[kind, sel[:2], rng.randint(0, 2)]]
             elif kind == 'union':
                 ops = [['union', rng.choice(['O', 'C[NH3+]', '[Na+]', 'c1ccccc1'])], ['substructure', sel]]
+            elif kind in ('ior', 'union_inplace'):   # merge in place; numbers colliding (remapped by union) or already disjoint
+                ops = [[kind, rng.choice(['O', 'C[NH3+]', '[Na+]', 'C[CH2] |^1:1|', 'CC(=O)[O-]', '[Cl-]']), rng.choice([0, 1, 5])]]
             else:
                 ops = [[kind]]
             if rng.random() < 0.25:
@@ -821,6 +878,13 @@ def history_stream(ctx):
             return model[ri][1].get(n) == '1'
 
         bad = judge_history(src, results, calc_of, accepts, ops)
+        for i, r in enumerate(results):   # totals as the (possibly cached) object answers them vs the model's sums over the result
+            d = parse_mol_line(resp[off + i])
+            exp = [int(d.get('q', '0')), d.get('rad') == '1', d.get('brutto'), d.get('mass', '')]
+            if isinstance(exp[2], str) and not exp[2].startswith('E:'):
+                exp[2] = {}
+            for what, got, want in aggregates_agree(read_aggregates(r), exp):
+                bad.append((i, 'totals', what, '', str(got)[:120], str(want)[:120], []))
         key = (wire.mol_to_line(src), json.dumps(ops))
         ctx.count(('history', key), nontrivial=any(atom_ctx(r, n) != (atom_ctx(src, n) if n in src._atoms else None)
                                                   for r in results for n in r._atoms))
@@ -846,15 +910,114 @@ def history_oracle(src, ops):
     def accepts(ri, n, cx, h):
         return h in spec_h(cx[0], cx[1], cx[2], list(cx[3]))[1]
 
+    kind = ops[0][1] if ops[0][0] == 'call' else ops[0][0]
+    for r in results:
+        stale = aggregates_agree(read_aggregates(r), recount_aggregates(r))
+        if stale:
+            what, got, want = stale[0]
+            return [(f'C04/history/{kind}/totals-are-not-the-sums-over-atoms',
+                     f'{src} (formula, charge, radical flag and mass read before) after {json.dumps(ops)[:300]} -> {r.copy()}: {what} answers {got}, '
+                     f'the atoms give {want}')]
     bad = judge_history(src, results, calc_of, accepts, ops)
     if not bad:
         return []
-    kind = ops[0][1] if ops[0][0] == 'call' else ops[0][0]
     ri, n, sym, q, mark, want, bonds = bad[0]
     res = results[ri]
     return [(f'C04/history/{kind}/stored-count-is-not-the-rules-count',
              f'{src} after {json.dumps(ops)[:300]} -> {res}: atom {n} ({sym}, q={q}) carries implicit_hydrogens={mark} with bonds {bonds}, '
              f'the element tables give {want}; check_valence()={res.check_valence()}; {len(bad)} such atoms')]
+
+# ------------------------------------------------------------------------------------------------
+# readers: the counts a reader leaves on bracket atoms (stated H explained by another valence state, by a guessed radical, or not at
+# all) must be counts the rules accept for the atom *as it is left* (its charge, its radical flag, its bonds)
+# ------------------------------------------------------------------------------------------------
+
+READER_ELEMENTS_QUICK = ['B', 'C', 'N', 'O', 'F', 'Al', 'Si', 'P', 'S', 'Cl', 'Ge', 'As', 'Se', 'Br', 'Sn', 'I']
+READER_SHAPES = ['{X}', 'C{X}', 'C{X}C', 'CC(C)(C){X}', 'C{X}(C)C', 'C{X}(C)(C)C', 'O={X}C', 'F{X}', 'C#{X}', 'O{X}=O', 'C{X}(=O)=O', 'N{X}',
+                 'C=C{X}', 'Cl{X}(Cl)Cl']
+
+
+def reader_texts(ctx):
+    """SMILES with one bracket atom: element x stated hydrogens 0..4 x charge x surroundings, with/without a CXSMILES radical mark"""
+    rng = ctx.rng
+    els = list(READER_ELEMENTS_QUICK)
+    if not ctx.quick:
+        from chython.periodictable import Element
+        els += [c.__name__ for c in Element.__subclasses__() if c.__name__ not in els and c.__name__ != 'H']
+    out = []
+    for el in els:
+        for h in range(5):
+            for q in ('', '+', '-'):
+                if q and el not in READER_ELEMENTS_QUICK[:12] and rng.random() < 0.5:
+                    continue
+                atom = f"[{el}{'H' + (str(h) if h > 1 else '') if h else ''}{q}]"
+                for shape in READER_SHAPES:
+                    if not ctx.quick or el in READER_ELEMENTS_QUICK:
+                        out.append(shape.replace('{X}', atom))
+    # stated radicals (CXSMILES) on the bracket atom of a few shapes
+    for el in READER_ELEMENTS_QUICK:
+        for h in range(4):
+            atom = f"[{el}{'H' + (str(h) if h > 1 else '') if h else ''}]"
+            out.append(f'{atom}C |^1:0|')
+            out.append(f'C{atom}C |^1:1|')
+    return out
+
+
+def reader_bad_atoms(mol, accepted):
+    """atoms with localised bonds whose stored count is not accepted for the atom as it is; `accepted(n, ctx, h)`"""
+    bad = []
+    for n, a in mol._atoms.items():
+        cx = atom_ctx(mol, n)
+        h = a._implicit_hydrogens
+        if h is None or any(o == 4 for o, _ in cx[3]):
+            continue
+        if not accepted(n, cx, h):
+            bad.append((n, a.atomic_symbol, cx[1], cx[2], h, list(cx[3])))
+    return bad
+
+
+def reader_stream(ctx):
+    from chython import smiles
+    texts = reader_texts(ctx)
+    parsed = []
+    for t in texts:
+        try:
+            m = smiles(t)
+        except Exception as e:
+            ctx.dist(f'reader/rejected:{type(e).__name__}')
+            continue
+        parsed.append((t, m))
+    resp = core.run_driver('C04', ['mol ' + wire.mol_to_line(m) for _, m in parsed])
+    for (t, m), line in zip(parsed, resp):
+        chk = dict(zip(m._atoms, parse_mol_line(line).get('chk', '').split()))
+        bad = reader_bad_atoms(m, lambda n, cx, h: chk.get(n) == '1')
+        mism = bool(m.meta.get('chython_implicit_mismatch')) if m._meta else False
+        ctx.count(('reader', t))
+        ctx.dist('reader/radical-guessed' if any(a._is_radical for a in m._atoms.values()) and '|' not in t else
+                 'reader/mismatch-kept-calculated' if mism else 'reader/as-stated')
+        if bad:
+            ctx.cov['disagreements_checked'] += 1
+            ctx.c04_bad_mols.append({'kind': 'reader', 'smiles': t})
+            if sum(1 for x in ctx.broken if x.name.startswith('reader/')) < 8:
+                ctx.broke('relational', 'reader/smiles/stored-count-accepted-by-check_implicit',
+                          f'{t} -> {m}: (atom, element, charge, radical, stored count, bonds) not accepted by the model check_implicit: {bad[:3]}')
+    ctx.notes.append(f't+{ctx.elapsed():.0f}s reader texts judged: {len(parsed)} of {len(texts)} accepted by the reader')
+
+
+def reader_oracle(text):
+    from chython import smiles
+    try:
+        m = smiles(text)
+    except Exception:
+        return []
+    bad = reader_bad_atoms(m, lambda n, cx, h: h in spec_h(cx[0], cx[1], cx[2], list(cx[3]))[1])
+    if not bad:
+        return []
+    n, sym, q, rad, h, bonds = bad[0]
+    allowed = sorted(spec_h(a := None or m._atoms[n].atomic_number, q, rad, bonds)[1])
+    return [('C04/reader/stored-count-not-in-tables',
+             f'smiles({text!r}) -> {m}: atom {n} ({sym}, q={q}, radical={rad}) carries implicit_hydrogens={h} with bonds {bonds}; the element tables allow '
+             f'{allowed} for that state; check_valence()={m.check_valence()}')]
 
 # ------------------------------------------------------------------------------------------------
 # correspondence
@@ -1042,6 +1205,8 @@ def correspond(ctx):
     ctx.notes.append(f't+{ctx.elapsed():.0f}s molecules compared: {len(mols)}')
     # -- stream 7: operation histories (options, cutting, transactions) judged with the model's calc_implicit / check_implicit
     history_stream(ctx)
+    # -- stream 8: readers (bracket atoms with stated hydrogens)
+    reader_stream(ctx)
 
 
 # ------------------------------------------------------------------------------------------------
@@ -1316,8 +1481,11 @@ def search(ctx):
     seeds = [c for c in getattr(ctx, 'c04_bad_ctx', []) if c['kind'] == 'ctx']
     for c in seeds[:300]:
         report(ctx_oracle(c['z'], c['charge'], c['radical'], c['bonds'], rng), c)
-    for c in getattr(ctx, 'c04_bad_mols', [])[:50]:
+    for c in getattr(ctx, 'c04_bad_mols', [])[:80]:
         try:
+            if c['kind'] == 'reader':
+                report(reader_oracle(c['smiles']), c)
+                continue
             m, _ = wire.ints_to_mol(c['wire'], calc=True)
             if c['kind'] == 'hop':
                 report(hop_oracle(m, c['op']), c)
@@ -1419,6 +1587,8 @@ def probe(inp):
     elif kind == 'history':
         m = molgen.parse(inp['smiles']) if 'smiles' in inp else wire.ints_to_mol(inp['wire'], calc=True)[0]
         res = history_oracle(m, inp['ops'])
+    elif kind == 'reader':
+        res = reader_oracle(inp['smiles'])
     elif kind == 'smiles':
         res = rdkit_formula_oracle(inp['smiles'])
     else:
